@@ -454,3 +454,6 @@ func VPrefixPostInBlock(w *appstate.VWorld, tx *types.Transaction) bool {
 }
 
 func VAppConfig() *config.Config { return appCfg }
+
+// VConfigFor: a fresh symbolic configuration (see vConfig).
+func VConfigFor() *config.Config { return vConfig() }
